@@ -212,3 +212,36 @@ def redeclared_outcome(notation, text, store0):
         return ('reject', type(e).__name__)
     except Exception as e:  # noqa: BLE001
         return ('crash', f'{type(e).__name__}: {e}')
+
+
+def blank_variants(text):
+    'the string with one blank, and with two blanks, inserted at every inner position, and at all at once'
+    out = []
+    for i in range(1, len(text)):
+        out.append(text[:i] + ' ' + text[i:])
+        out.append(text[:i] + '  ' + text[i:])
+    if len(text) > 1:
+        out.append(' '.join(text))
+        out.append(' ' + text + ' ')
+    return list(dict.fromkeys(out))
+
+
+def reference_outcome(notation, text, store0):
+    store = dict(store0)
+    try:
+        return ('sentence', refparse.parse(notation, text, store))
+    except refparse.Reject as e:
+        return ('reject', str(e))
+
+
+def whitespace_differential(notation, text, store0):
+    """For an accepted input: every blank-insertion variant is parsed by the
+    complete real entry point and by the reference parser; returns the list of
+    (variant, real, reference) that differ in accept/reject or in the sentence."""
+    bad = []
+    for v in blank_variants(text):
+        real = concrete_outcome(notation, v, store0)
+        ref = reference_outcome(notation, v, store0)
+        if real[0] != ref[0] or (real[0] == 'sentence' and real[1] != ref[1]):
+            bad.append((v, real, ref))
+    return bad
